@@ -335,8 +335,9 @@ class World(object):
         self.cmd_results.append(holder)
         return holder
 
-    def start(self, wf_name, wf_input=None, wf_ex_id=None, **params):
-        h = self.command('start_workflow', wf_name, '', wf_ex_id,
+    def start(self, wf_name, wf_input=None, wf_ex_id=None, wf_namespace='',
+              **params):
+        h = self.command('start_workflow', wf_name, wf_namespace, wf_ex_id,
                          wf_input or {}, '', **params)
         return h
 
